@@ -345,6 +345,12 @@ META = (META[0] + ' INTFB (the constant-evaluation fallback of popcount is evalu
 META = (META[0] + ' LITMASK over _bit/ (no mask or power of two is built by shifting an int / unsigned literal by a run-time count: for a 64-bit argument a count of 32 or more is undefined, so constant evaluation fails and run time wraps; control in fixtures/arith_pos.hpp).', META[1])
 
 
+META = (META[0] + ' PPBUILTIN (string / memory builtins are reached only inside #if defined(__clang__): GCC rejects them in constant expressions over non-literal arrays).', META[1])
+
+
+META = (META[0] + ' SHIFTNEG (a shift by a signed parameter - the int of the <cctype> functions, EOF included - happens only where the parameter is known to be non-negative; controls in fixtures/extra12_pos.hpp).', META[1])
+
+
 def run(chk, tier):
     db = D.load("plain")
     census = []
@@ -476,6 +482,10 @@ def run(chk, tier):
     _AR.negmin_area(chk, D.load("checks"), [""])      # NEGMIN: `-min` is not a constant expression although the run-time call wraps
     _AR.positive_controls(chk, D, ("NEGMIN",))
     nzb_rule(chk, db)
+    ppbuiltin_rule(chk)
+    from ..rules import extra12 as _X12s
+    _X12s.shift_negative_area(chk, D.load('checks'), ['_cctype/', '_cwctype/', '_bit/', '_strings/', '_charconv/', '_cstdlib/', '_cstring/'])      # SHIFTNEG (zero expected)
+    _X12s.shift_negative_control(chk, D)
     from . import c17 as _c17
     _c17.litmask_rule(chk, db, ('_bit/',))      # LITMASK (zero expected on the library)
     aliasmode_rule(chk, db)
@@ -499,6 +509,55 @@ def run(chk, tier):
 # ---- NZB: builtins that only promise "non-zero" are used in boolean context --------------------------------------------------
 NONZERO_BUILTINS = re.compile(r"^__builtin_(isinf|isnan|isfinite|isnormal|signbit|isgreater|isgreaterequal|isless|islessequal|"
                               r"islessgreater|isunordered|isinf_sign)(f|l|f16|f32|f64|f128)?$")
+
+
+def ppbuiltin_rule(chk):
+    """PPBUILTIN: the string / memory builtins (`__builtin_strncmp`, `__builtin_memcmp`, `__builtin_strlen`, ...) are constant
+    expressions for arbitrary constexpr arrays under clang only; GCC folds them for string literals and otherwise rejects the
+    call in a constant expression while the run-time call works - exactly the divergence C13 excludes. The library's
+    convention (all sites agree) is to reach them only inside `#if defined(__clang__)`. The rule tracks the preprocessor
+    conditionals of every header that names such a builtin: the innermost governing condition mentions `__clang__`, is not
+    negated, and admits no other compiler (`__GNUC__`, `or`, `||`). clang's own parse sees one branch only, which is why this is
+    decided on the directive structure and not on the AST."""
+    import glob
+    pat = re.compile(r"__builtin_(?:str|mem|wcs|wmem)\w+\s*\(")
+    n = 0
+    for path in sorted(glob.glob(os.path.join(D.INCLUDE, "etl", "_c*", "*.hpp")) + glob.glob(os.path.join(D.INCLUDE, "etl", "_strings", "*.hpp"))):
+        stack = []          # [(condition text of the active branch, is_else_branch)]
+        rel = os.path.relpath(path, D.INCLUDE)
+        for ln, line in enumerate(open(path, errors="replace"), 1):
+            t = line.strip()
+            m = re.match(r"#\s*(if|ifdef|ifndef|elif|else|endif)\b(.*)", t)
+            if m:
+                kw, rest = m.group(1), m.group(2).strip()
+                if kw in ("if", "ifdef", "ifndef"):
+                    stack.append(((("defined(%s)" % rest) if kw == "ifdef" else ("!defined(%s)" % rest) if kw == "ifndef" else rest), False))
+                elif kw == "elif" and stack:
+                    stack[-1] = (rest, False)
+                elif kw == "else" and stack:
+                    stack[-1] = (stack[-1][0], True)
+                elif kw == "endif" and stack:
+                    stack.pop()
+                continue
+            if t.startswith("//") or t.startswith("///"):
+                continue
+            if not pat.search(t):
+                continue
+            n += 1
+            label = "%s:%d `%s`" % (rel, ln, t[:60])
+            chk.instance("PPBUILTIN")
+            govern = [c for c in stack if "clang" in c[0] or "GNUC" in c[0] or "MSC" in c[0]]
+            ok = bool(govern) and not govern[-1][1] and "__clang__" in govern[-1][0] and not re.search(r"__GNUC__|\bor\b|\|\||!\s*defined\s*\(\s*__clang__", govern[-1][0])
+            chk.obligation("PPBUILTIN", label, ok)
+            if not ok:
+                chk.violation("PPBUILTIN", label, "builtin-outside-clang", "include/%s:%d: `%s` is compiled under `%s`: GCC does not evaluate this "
+                              "builtin in a constant expression unless its operands are string literals, so the call is rejected at "
+                              "compile time where the portable loop (and the run-time call) succeeds" % (
+                                  rel, ln, pat.search(t).group(0).rstrip("( "), (govern[-1][0] + (" (else branch)" if govern[-1][1] else "")) if govern else "no compiler test"),
+                              {"where": "include/%s:%d" % (rel, ln)})
+    if n < 8:
+        chk.analysis_broken("PPBUILTIN: only %d uses of string / memory builtins found (floor 8)" % n)
+    return n
 
 
 def nzb_rule(chk, db):
